@@ -306,6 +306,10 @@ def to_expr(n):
         return ("sub", to_expr(ks[0]), [to_expr(ks[1])])
     if k == "InitListExpr":
         return ("init", [to_expr(c) for c in ks])
+    if k == "ParenListExpr":
+        if len(ks) == 1:
+            return to_expr(ks[0])
+        return ("init", [to_expr(c) for c in ks])
     if k == "LambdaExpr":
         return ("lambda", n)
     if k in ("MemberExpr", "CXXDependentScopeMemberExpr"):
